@@ -37,6 +37,8 @@ C15_ConcurrentAdmissions(r) == /\ r.served = (IF r.n < r.cfg.limit THEN r.n ELSE
 
 (* ---- C16: one stalled or hostile client never delays another ---- *)
 C16_GoodServedPromptly(r) == r.goodOutcome = "served" /\ r.goodLatencyMs <= 2000
+\* ... and neither is a client that arrives after a quiet period in which the server gave up on the stalled ones
+C16_GoodServedAfterQuiet(r) == r.quietOutcome = "served" /\ r.quietLatencyMs <= 2000
 
 (* ---- C17: shutdown drains in-flight connections and serves no new ones ---- *)
 C17_StopsDespiteHostile(r) == r.returnedAfterStop /\ r.returnMs <= r.cfg.timeoutMs + Slack
@@ -51,12 +53,23 @@ C17_NotBeforeInFlight(r) == \A i \in 1..Len(r.inflight) : r.returnedMs + 150 >= 
 \* a connection arriving after the interrupt gets nothing
 C17_ApplicationDrains(r) == r.gotStatus /\ r.pong /\ ~r.returnedBeforeInFlightDone /\ r.returned /\ r.lateBytes = 0 /\ r.lateOutcome # "served"
 
+(* ---- C13 at application level: the window and the limit the operator configured (seconds, connections) govern ---- *)
+\* sound for every limiter that satisfies C13: the first `limit` connections of a fresh address are admitted; never more than 2*limit within
+\* one configured duration; after more than two idle durations the address is admitted again
+AppServedWithin(r, i, ms) == Cardinality({j \in 1..(i-1) : r.results[j].outcome = "served" /\ r.results[i].atMs - r.results[j].atMs < ms})
+C13_AppFirstAdmitted(r) == \A i \in 1..Len(r.results) : i <= r.limit => r.results[i].outcome = "served"
+C13_AppTwoLimit(r) == \A i \in 1..Len(r.results) : r.results[i].outcome = "served" => AppServedWithin(r, i, r.durationS * 1000 - 150) < 2 * r.limit
+C13_AppIdleReadmit(r) == \A i \in 2..Len(r.results) : (r.results[i].atMs - r.results[i-1].atMs > 2 * r.durationS * 1000 + 300) => r.results[i].outcome = "served"
+
 (* ---- C14: operator-configured limits and the deadline ---- *)
 C14_MaxLength(r) == (r.outcome = "served") <=> (r.sentLen <= r.maxLen)
-C14_CookieAcceptance(r) == r.encReqAuth = ~(r.age + 2 <= r.expiry /\ r.secretMatches /\ r.ipMatches) \/ (r.age > r.expiry - 2 /\ r.age < r.expiry + 2)
-C14_Deadline(r) == r.closed /\ r.closedAfterMs <= r.timeoutMs + 1000
+\* the age that counts is the age when the cookie is PRESENTED (a client may idle inside the connection before it answers the request)
+C14_CookieAcceptance(r) == LET age == r.age + r.stallS IN
+                           r.encReqAuth = ~(age + 2 <= r.expiry /\ r.secretMatches /\ r.ipMatches) \/ (age > r.expiry - 2 /\ age < r.expiry + 2)
+\* closed at the deadline, and for good: not merely half-closed with the handler still reading what the client sends
+C14_Deadline(r) == r.closed /\ r.closedAfterMs <= r.timeoutMs + 1000 /\ r.closedForGood
 \* a frame whose length prefix never ends within five bytes is refused at once, not buffered until the deadline
-C14_OverlongRefused(r) == r.behaviour = "overlong-prefix" => (r.closed /\ r.closedAfterMs <= 1500)
+C14_OverlongRefused(r) == r.behaviour \in {"overlong-prefix", "negative-prefix"} => (r.closed /\ r.closedAfterMs <= 1500)
 
 \* the same observation under the cookie properties: the address a cookie records (C10) and is bound to (C02: "same IP") is the
 \* client's effective address -- behind a balancer the PROXY-announced source, never the balancer's
@@ -65,21 +78,25 @@ C02_BoundToEffectiveAddress(r) == C15_CookieBoundToEffective(r)
 
 Names(fam) == CASE fam = "C15" /\ Prop = "C10" -> {"C10_RecordsEffectiveAddress"} [] fam = "C15" /\ Prop = "C02" -> {"C02_BoundToEffectiveAddress"}
                 [] fam = "C15" -> {"C15_ServedIffAdmitted", "C15_RefusedGetsNothing", "C15_NoBackendForUnserved", "C15_BackendSeesEffective", "C15_CookieBoundToEffective", "C15_LoginGetsCookie"}
-                [] fam = "C16" -> IF Prop = "C17" THEN {"C17_StopsDespiteHostile"} ELSE {"C16_GoodServedPromptly"}
+                [] fam = "C16" -> IF Prop = "C17" THEN {"C17_StopsDespiteHostile"} ELSE {"C16_GoodServedPromptly", "C16_GoodServedAfterQuiet"}
                 [] fam = "C17" -> {"C17_ReturnsAfterAllFinished", "C17_WithinTimeout", "C17_InFlightCompletes", "C17_LateNotServed", "C17_NotBeforeInFlight"}
                 [] fam = "C17app" -> {"C17_ApplicationDrains"} [] fam = "C15app" -> {"C15_ApplicationWiring"} [] fam = "C15race" -> {"C15_ConcurrentAdmissions"}
+                [] fam = "C13app" -> {"C13_AppFirstAdmitted", "C13_AppTwoLimit", "C13_AppIdleReadmit"}
+                [] fam = "C14len" /\ Prop = "C04" -> {"C04_ConfiguredMaximumGoverns"}
                 [] fam = "C14len" -> {"C14_MaxLength"} [] fam = "C14cookie" -> {"C14_CookieAcceptance"} [] fam = "C14deadline" -> {"C14_Deadline", "C14_OverlongRefused"}
                 [] OTHER -> {}
 Clause(c, r) ==
   CASE c = "C15_ServedIffAdmitted" -> C15_ServedIffAdmitted(r) [] c = "C15_RefusedGetsNothing" -> C15_RefusedGetsNothing(r)
     [] c = "C15_NoBackendForUnserved" -> C15_NoBackendForUnserved(r) [] c = "C15_BackendSeesEffective" -> C15_BackendSeesEffective(r)
     [] c = "C15_CookieBoundToEffective" -> C15_CookieBoundToEffective(r) [] c = "C15_LoginGetsCookie" -> C15_LoginGetsCookie(r)
-    [] c = "C16_GoodServedPromptly" -> C16_GoodServedPromptly(r) [] c = "C17_StopsDespiteHostile" -> C17_StopsDespiteHostile(r)
+    [] c = "C16_GoodServedPromptly" -> C16_GoodServedPromptly(r) [] c = "C16_GoodServedAfterQuiet" -> C16_GoodServedAfterQuiet(r) [] c = "C17_StopsDespiteHostile" -> C17_StopsDespiteHostile(r)
     [] c = "C17_ReturnsAfterAllFinished" -> C17_ReturnsAfterAllFinished(r) [] c = "C17_WithinTimeout" -> C17_WithinTimeout(r)
     [] c = "C17_InFlightCompletes" -> C17_InFlightCompletes(r) [] c = "C17_LateNotServed" -> C17_LateNotServed(r)
     [] c = "C17_NotBeforeInFlight" -> C17_NotBeforeInFlight(r)
     [] c = "C17_ApplicationDrains" -> C17_ApplicationDrains(r) [] c = "C15_ApplicationWiring" -> C15_ApplicationWiring(r) [] c = "C15_ConcurrentAdmissions" -> C15_ConcurrentAdmissions(r)
     [] c = "C10_RecordsEffectiveAddress" -> C10_RecordsEffectiveAddress(r) [] c = "C02_BoundToEffectiveAddress" -> C02_BoundToEffectiveAddress(r)
+    [] c = "C13_AppFirstAdmitted" -> C13_AppFirstAdmitted(r) [] c = "C13_AppTwoLimit" -> C13_AppTwoLimit(r) [] c = "C13_AppIdleReadmit" -> C13_AppIdleReadmit(r)
+    [] c = "C04_ConfiguredMaximumGoverns" -> C14_MaxLength(r)
     [] c = "C14_MaxLength" -> C14_MaxLength(r) [] c = "C14_CookieAcceptance" -> C14_CookieAcceptance(r) [] c = "C14_Deadline" -> C14_Deadline(r) [] c = "C14_OverlongRefused" -> C14_OverlongRefused(r)
     [] OTHER -> FALSE
 
